@@ -13,7 +13,9 @@ RULE = ("path strings = directory grammar x stem grammar x extension (every exte
         "mimetypes database, junk) x case variant (ASCII letters flipped), under three MIME configurations (default / emptied / hostile overrides), each in "
         "its own process. Exhaustive: every documented extension x 5 case variants x 14 stems x 3 configurations. Oracle: is_supported_file <=> get_extractor "
         "returns (else exactly ExtractionFileFormatNotSupportedError); documented extension -> documented extractor (independent hand-transcribed table); alias "
-        "== base; case / stem / directory / MIME-configuration invariance for table extensions; read_file reaches the same function (spies). Non-trivial = "
+        "== base; case / stem / directory / MIME-configuration invariance for table extensions; read_file reaches the same function (spies, also through symbolic links). Paths may carry a tail "
+        "(?query, #fragment, '/', blank, '.', '%20'): whatever the router makes of it, both entry points agree. Histories of MIME-configuration switches and queries inside one process (fresh fork each): every "
+        "query is judged under the configuration in force. Non-trivial = "
         "extension in the tables but not in bare lower-case form, or compound, or multi-dot/space/unicode stem, or non-default MIME configuration; distinct by path+config.")
 ASSUMPTIONS = ["the reference table is transcribed by hand from README 'Supported Formats'", "os.sep is '/' (Linux)"]
 
